@@ -23,6 +23,9 @@ def plan(tier, seed):
     n = 48 if tier == "quick" else 700
     for k in range(n):
         specs.append({"klass": "comments", "i": k, "part": k % 4, "fill": k >= 16})
+    for k in range(8 if tier == "quick" else 80):
+        # the same edits on a text that repeats some definitions verbatim (accepted by the loader)
+        specs.append({"klass": "comments", "i": 10000 + k, "part": k % 4, "dup": True, "fill": k >= 4})
     for k in range(6 if tier == "quick" else 60):
         specs.append({"klass": "layout", "i": k})
     for k in range(6 if tier == "quick" else 40):
@@ -69,9 +72,13 @@ def run_case(spec, ctx):
     if all(c == "" for _, _, c, _ in ms.assigns):
         ms.assigns = [(n, r, "main comp", t) for (n, r, c, t) in ms.assigns]
         ms.states = [(n, v, u, d, "main comp") for (n, v, u, d, c) in ms.states]
+    if spec.get("dup"):
+        for _ in range(2):
+            j = rng.randrange(len(ms.assigns))
+            ms.assigns.insert(j + 1, ms.assigns[j])
     lines = textmut.layout_lines(ms)
     T = textmut.join(lines)
-    out["hash"] = models.structural_hash(T) + ":" + spec["klass"] + str(spec.get("part", ""))
+    out["hash"] = models.structural_hash(T) + ":" + spec["klass"] + str(spec.get("part", "")) + ("dup" if spec.get("dup") else "")
     lo = C.load_text(T)
     if not lo.ok:
         out.update(status="skipped", reason="base text rejected by the loader: " + lo.describe())
